@@ -181,8 +181,11 @@ def sv_quoted(rng, reader):
         content, cls = "", "quoted:empty"
     elif r < 0.4:
         content, cls = w(), "quoted:word"
-    elif r < 0.6:
+    elif r < 0.55:
         content, cls = f"{w()} {w()} {w()}", "quoted:spaces"
+    elif r < 0.6:
+        content, cls = rng.choice((f" {w()} ", f"  {w()}", f"{w()}  ", f"{w()}\t{w()}",
+                                   " ", f"{w()}   {w()}")), "quoted:outer-or-run-spaces"
     elif r < 0.7:
         content, cls = f"it{other}s {w()}", "quoted:other-quote"
     elif r < 0.8:
